@@ -53,8 +53,8 @@ package websocket
 //@   prop C16
 //@   assume-typeassert Frame
 //@   // sync.Pool hands out a frame nobody else references: its storage aliases nothing the caller holds
-//@   assume def f: poolFrame(f) && (*f)[0] == 0 && (*f)[1] == 0 && fresh(*f)
-//@   ensures [frame] poolFrame(result) && (*result)[0] == 0 && fresh(*result)
+//@   assume def f: poolFrame(f) && (*f)[0] == 0 && (*f)[1] == 0 && fresh(*f) && freshobj(f)
+//@   ensures [frame] poolFrame(result) && (*result)[0] == 0 && fresh(*result) && freshobj(result)
 //@   ensures [frame-only] unchanged_except(*result)
 //@   ensures [client-mask] (*result)[1] == ((s.role == RoleClient) ? 128 : 0)
 //@   modifies nothing
@@ -115,6 +115,7 @@ package websocket
 //@   ensures [server-plain] s.role != RoleClient ==> (forall k :: 0 <= k && k < total ==> (*f)[k] == old((*f)[k]))
 //@   ensures [frame-only] unchanged_except(old(*f))
 //@   ensures [inv] qInv(s) && s.state == old(s.state)
+//@   ensures [queue-storage] (ptr(s.pendingFrames) == old(ptr(s.pendingFrames)) && cap(s.pendingFrames) == old(cap(s.pendingFrames))) || fresh(s.pendingFrames)
 //@   modifies *f, mem(*f), s.pendingFrames, memcap(s.pendingFrames)
 
 // Close codes travel big-endian in the first two payload bytes.
@@ -140,6 +141,9 @@ package websocket
 //@   ensures [order] forall j :: 0 <= j && j < old(len(s.pendingFrames)) ==> s.pendingFrames[j] == old(s.pendingFrames[j])
 //@   ensures [inv] qInv(s) && s.state == old(s.state)
 //@   ensures [frame-only] unchanged_except(*s.pendingFrames[old(len(s.pendingFrames))])
+//@   ensures [new-storage] fresh(*s.pendingFrames[old(len(s.pendingFrames))])
+//@   ensures [queue-storage] (ptr(s.pendingFrames) == old(ptr(s.pendingFrames)) && cap(s.pendingFrames) == old(cap(s.pendingFrames))) || fresh(s.pendingFrames)
+//@   modifies s.pendingFrames, memcap(s.pendingFrames)
 //@   // on the wire: payload XOR masking key for a client, payload itself for a server
 //@   ensures [payload-client] s.role == RoleClient ==> (forall k :: 0 <= k && k < len(payload) ==>
 //@           (*s.pendingFrames[old(len(s.pendingFrames))])[6 + k] == old(payload[k]) ^ (*s.pendingFrames[old(len(s.pendingFrames))])[2 + (k & 3)])
@@ -148,6 +152,8 @@ package websocket
 
 //@ func fnparam:(*Stream).*.controlCallback
 //@   trusted
+//@   // the application's control callback does not tear the stream down underneath the read in progress
+//@   ensures s.codecConn == old(s.codecConn)
 
 // The control-frame transition table of RFC 6455 (sections 5.5, 7), one step.
 //@ func (*Stream).handleControlFrame
@@ -200,6 +206,10 @@ package websocket
 //@   ensures [close-ack] fin && !big && op == 8 && old(s.state) == StateClosedByUs ==> err == nil && s.state == StateCloseAcked && len(s.pendingFrames) == n0
 //@   ensures [order] forall j :: 0 <= j && j < n0 ==> s.pendingFrames[j] == old(s.pendingFrames[j])
 //@   ensures [inv] qInv(s)
+//@   // replies are built in storage of their own: no byte that existed before is written (the frame just read stays as it was)
+//@   ensures [reads-only] unchanged_except(f[0:0])
+//@   ensures [queue-storage] (ptr(s.pendingFrames) == old(ptr(s.pendingFrames)) && cap(s.pendingFrames) == old(cap(s.pendingFrames))) || fresh(s.pendingFrames)
+//@   modifies s.state, s.pendingFrames, memcap(s.pendingFrames)
 
 // handleFrame: every framing violation is reported, closes the stream from our side and queues
 // exactly one Close(1002) - unless our Close is already on its way, in which case nothing more
@@ -226,6 +236,10 @@ package websocket
 //@   ensures [single-close] err != nil && old(s.state) == StateClosedByUs ==> len(s.pendingFrames) == n0
 //@   ensures [order] forall j :: 0 <= j && j < n0 ==> s.pendingFrames[j] == old(s.pendingFrames[j])
 //@   ensures [inv] qInv(s)
+//@   // replies are built in storage of their own: no byte that existed before is written (the frame just read stays as it was)
+//@   ensures [reads-only] unchanged_except(f[0:0])
+//@   ensures [queue-storage] (ptr(s.pendingFrames) == old(ptr(s.pendingFrames)) && cap(s.pendingFrames) == old(cap(s.pendingFrames))) || fresh(s.pendingFrames)
+//@   modifies s.state, s.pendingFrames, memcap(s.pendingFrames)
 
 // --- the write side: queue and flush (C16 order and completeness, C08 gates) ----------------
 
@@ -311,6 +325,7 @@ package websocket
 //@          (*s.pendingFrames[n0])[0] == 136 && int((*s.pendingFrames[n0])[1] & 127) == 2 + len(reason) && wireFrame(s, s.pendingFrames[n0])
 //@   assert call (*Stream).Flush: s.role == RoleServer ==>
 //@          int((*s.pendingFrames[n0])[2])*256 + int((*s.pendingFrames[n0])[3]) == int(cc)
+//@   ensures [inv] qInv(s)
 //@   ensures [once] old(s.state) == StateClosedByUs ==> result == sonicerrors.ErrCancelled && len(s.pendingFrames) == n0 && !flushing && s.state == old(s.state)
 //@   ensures [over] old(s.state) != StateActive && old(s.state) != StateClosedByUs && old(s.state) != StateHandshake ==>
 //@           result == io.EOF && len(s.pendingFrames) == n0 && !flushing && s.state == old(s.state)
@@ -328,7 +343,7 @@ package websocket
 //@ func (*Stream).nextFrame
 //@   prop C08
 //@   requires qInv(s) && s.codecConn != nil && (s.state == StateActive || s.state == StateClosedByUs) && (s.role == RoleClient || s.role == RoleServer)
-//@   assume after call ReadNext: result1 == nil ==> len(result0) >= 2 && frameWF(result0)
+//@   assume after call ReadNext: result1 == nil ==> len(result0) >= 2 && frameWF(result0) && heapslice(result0)
 //@   remember after call ReadNext: lost = result1 == io.EOF
 //@   remember after call ReadNext: got = result1 == nil
 //@   // an unexpected end of the transport is surfaced as an abnormal closure: a Close frame with code 1006, state terminated
@@ -336,6 +351,9 @@ package websocket
 //@           int(f[2])*256 + int(f[3]) == 1006 && len(s.pendingFrames) == old(len(s.pendingFrames))
 //@   // any other transport error is passed up unchanged, nothing is queued
 //@   ensures [error] !lost && !got ==> err != nil && s.state == old(s.state) && len(s.pendingFrames) == old(len(s.pendingFrames))
+//@   // a frame delivered without error is the decoder's frame, untouched by the handling of it
+//@   ensures [delivered] err == nil ==> len(f) >= 2 && frameWF(f)
+//@   ensures [inv] qInv(s) && s.codecConn == old(s.codecConn)
 
 //@ func (*Stream).NextFrame
 //@   prop C08
@@ -347,3 +365,27 @@ package websocket
 //@   ensures [end-of-stream] flushOK && old(s.state) != StateActive && old(s.state) != StateClosedByUs ==> err == io.EOF
 //@   // a failed flush is reported as what it is, not as end of stream
 //@   ensures [flush-error] !flushOK ==> err != nil && (err == io.EOF ==> flushEOF)
+//@   ensures [delivered] err == nil ==> len(f) >= 2 && frameWF(f)
+//@   ensures [inv] qInv(s) && s.codecConn == old(s.codecConn)
+
+// --- the message level (C15 fragmentation rules; C06: what lands in the caller's buffer) ------
+
+//@ func (*Stream).NextMessage
+//@   prop C15, C06
+//@   requires s.codecConn != nil && (s.role == RoleClient || s.role == RoleServer) && len(b) <= 1<<40
+//@   loop 1 invariant s.codecConn != nil && (s.role == RoleClient || s.role == RoleServer) && 0 <= readBytes && readBytes <= len(b)
+//@   // the caller's buffer is not the stream's own read buffer, in which the frame lives
+//@   assume after call (*Stream).NextFrame: result1 == nil ==> disjoint(b, result0[0:cap(result0)])
+//@   // the fragmentation rules, frame by frame (continuation$head: a message is in progress when this frame arrives):
+//@   // a continuation frame needs a message in progress, a new data frame must not interrupt one
+//@   assert at "if err != nil || !continuation": [C15 fragmentation] (!continuation$head && f[0] & 15 == 0 ==> err == ErrUnexpectedContinuation) &&
+//@          (continuation$head && f[0] & 15 != 0 ==> err == ErrExpectedContinuation) &&
+//@          ((continuation$head == (f[0] & 15 == 0)) ==> err == nil)
+//@   // C06: the payload of each data frame is copied right behind what was read before, as far as the buffer reaches
+//@   assert at "if readBytes > s.maxMessageSize": [C06 appended] readBytes == readBytes$head + n &&
+//@          n == min(len(b) - readBytes$head, len(Frame.Payload(f))) &&
+//@          (forall k :: 0 <= k && k < n ==> b[readBytes$head + k] == Frame.Payload(f)[k])
+//@   // a frame that does not fit into the buffer, or a message above the limit, ends the read with an error
+//@   assert at "if err != nil || !continuation": [C15 fits] n == Frame.PayloadLength(f) && readBytes <= s.maxMessageSize
+//@   ensures [in-buffer] 0 <= readBytes && readBytes <= len(b)
+//@   ensures [C15 too-big] readBytes > s.maxMessageSize ==> err != nil
